@@ -451,3 +451,78 @@ class explicit_defaults:
         return conj(set(a.spine_types) == set(b.spine_types), a.token_categories == b.token_categories, a.from_measure == b.from_measure,
                     a.to_measure == b.to_measure, a.kern_type == b.kern_type, a.instruments == b.instruments,
                     a.show_measure_numbers == b.show_measure_numbers, a.spine_ids == b.spine_ids)
+
+
+# ------------------------------------------------------------------------------------------------ Exporter.get_spine_types (C06: the header line of the projection)
+from pyvc.ghost import ghost_get, ghost_set
+
+A_EXPORT = ('export_string(document, options) returns a text; get_spine_types reads its first line only (what the text is: the '
+            'contracts of export_string)')
+
+
+@contract(EX + 'Exporter.export_string', props=['C06'], name='export_string_summary_for_spine_types', local=True, assumed=A_EXPORT)
+class export_string_summary_for_spine_types:
+    def model(self, document, options):
+        ghost_set('export.calls', ghost_get('export.calls', 0) + 1)
+        ghost_set('export.options', options)
+        return ghost_get('export.content')
+
+
+@contract(EX + 'Exporter.get_spine_types', props=['C06'])
+class get_spine_types:
+    """The spine-type query is the header line of the projection.  Deductive clauses (for an implementation that answers through an
+    export, as the current one does): exactly one export, of the very document, with the given spine types and the header category
+    only and no other restriction; the answer is the cells of the first line of that text, in order, none dropped, none reordered
+    (an empty text or an empty first line: no spine); an explicitly empty selection answers [] without exporting.  An implementation
+    that does not export at all is not judged by these clauses (the bounded contract spine_selection_is_projection and the native
+    clause below compare the answer with the header line of the real export)."""
+    uses = ('export_string_summary_for_spine_types',)
+    assumes = (A_EXPORT, 'domain: first lines of 0..3 cells (cell texts free of tab and newline), followed by any further lines')
+
+    def inputs(g):
+        shape = g.choice('spine_types.shape', ['none', 'empty', 'some'])
+        sel = None if shape == 'none' else ([] if shape == 'empty' else g.str_subset('spine_types', ['**kern', '**text', '**harm']))
+        ncells = g.choice('first line cells', [0, 1, 2, 3])
+        cells = []
+        for k in range(ncells):
+            c = g.str_sym(f'cell{k}', ['**kern', '**text', '**ekern'])
+            g.assume(conj(not ('\t' in c), not ('\n' in c), len(c) > 0))
+            cells.append(c)
+        more = g.choice('further lines', [True, False])
+        content = '\t'.join(cells) + (('\n' + g.str_sym('rest', ['4c\t4e\n*-\t*-\n'])) if more else '')
+        if g.symbolic:
+            from kernpy.core.document import Document
+            ghost_set('export.content', content)
+            document = g.new(Document, {'tree': mk_tree(g), 'measure_start_tree_stages': [], 'page_bounding_boxes': {}, 'header_stage': g.int('header_stage', 1)}, None)
+        else:
+            document = native_document(g)
+        return {'self': g.new(Exporter, {}, ()), 'document': document, 'spine_types': sel, '_cells': cells}
+
+    modifies = ('self.**',)
+
+    def post_cells_of_the_first_line(result, cells, spine_types):
+        if not symbolic_run():
+            return True
+        if spine_types is not None and len(spine_types) == 0:
+            return conj(result == [], ghost_get('export.calls', 0) == 0)
+        if ghost_get('export.calls', 0) == 0:
+            return True          # (not answered through an export: see the docstring)
+        return conj(result == cells, ghost_get('export.calls', 0) == 1)
+
+    def post_exports_headers_of_the_selection(spine_types):
+        if not symbolic_run():
+            return True
+        if (spine_types is not None and len(spine_types) == 0) or ghost_get('export.calls', 0) == 0:
+            return True
+        o = ghost_get('export.options')
+        return conj(o.spine_types is spine_types if spine_types is not None else o.spine_types is not None,
+                    list(o.token_categories) == [TokenCategory.HEADER], o.from_measure is None, o.to_measure is None, o.spine_ids is None)
+
+    def post_header_line_of_the_real_export(result, document, spine_types):
+        if symbolic_run():
+            return True
+        if spine_types is not None and len(spine_types) == 0:
+            return result == []
+        text = Exporter().export_string(document, ExportOptions(spine_types=spine_types, token_categories=[TokenCategory.HEADER]))
+        first = text.split('\n')[0]
+        return result == ([] if first == '' else first.split('\t'))
